@@ -255,6 +255,30 @@ func init() {
 			m.pools[p] = append(m.pools[p], a[1])
 			return nil
 		},
+		// sync.Map as an association list with Go's interface-key equality
+		"(*sync.Map).Load": func(m *Machine, c *frame, fn *ssa.Function, a []value) value {
+			mp := m.syncMapOf(a[0].(*value))
+			if e := m.mapFind(mp, a[1]); e != nil {
+				return tuple{e.v, tTrue}
+			}
+			return tuple{ifaceV{}, tFalse}
+		},
+		"(*sync.Map).Store": func(m *Machine, c *frame, fn *ssa.Function, a []value) value {
+			m.mapInsert(m.syncMapOf(a[0].(*value)), a[1], a[2])
+			return nil
+		},
+		"(*sync.Map).LoadOrStore": func(m *Machine, c *frame, fn *ssa.Function, a []value) value {
+			mp := m.syncMapOf(a[0].(*value))
+			if e := m.mapFind(mp, a[1]); e != nil {
+				return tuple{e.v, tTrue}
+			}
+			m.mapInsert(mp, a[1], a[2])
+			return tuple{a[2], tFalse}
+		},
+		"(*sync.Map).Delete": func(m *Machine, c *frame, fn *ssa.Function, a []value) value {
+			m.mapDelete(m.syncMapOf(a[0].(*value)), a[1])
+			return nil
+		},
 		// runtime
 		"runtime.SetFinalizer": func(m *Machine, c *frame, fn *ssa.Function, a []value) value { return nil },
 		"runtime.KeepAlive":    func(m *Machine, c *frame, fn *ssa.Function, a []value) value { return nil },
@@ -908,3 +932,12 @@ var _ = sort.Strings
 var _ = os.Getpid
 
 func (m *Machine) randBudgetScale() int { return 2 }
+
+func (m *Machine) syncMapOf(p *value) *mapV {
+	mp := m.syncMaps[p]
+	if mp == nil {
+		mp = &mapV{keyT: types.NewInterfaceType(nil, nil), elT: types.NewInterfaceType(nil, nil)}
+		m.syncMaps[p] = mp
+	}
+	return mp
+}
